@@ -180,8 +180,8 @@ class Gen:
             return self.leaf_op()
         n = r.choice([1, 2, 2, 3])
         items = [self.leaf_op() for _ in range(n)]
-        if r.random() < 0.03:
-            items = []
+        if r.random() < 0.08:
+            items = []                     # empty OpSum() / []
         node = {"t": "opsum" if want == "U" else "list", "items": [x[0] for x in items]}
         self.count("leaf:" + node["t"])
         return node, want, len(items), max([x[3] for x in items] + [0])
@@ -257,8 +257,12 @@ class Gen:
             return {"t": p, "a": a[0]}, "L", a[2], a[3]
         # want == "U"
         p = r.choice(["add", "add", "add", "sub", "sub", "add0", "mul", "mul", "mul", "scal", "scal", "div", "neg",
-                      "iadd", "iadd", "simplify", "simplify", "mksum", "copy", "sprod", "sum", "aug"])
+                      "iadd", "iadd", "simplify", "simplify", "mksum", "copy", "sprod", "sum", "aug", "cancel"])
         self.count("U:" + p)
+        if p == "cancel":                  # a correction whose terms cancelled: (x - x).simplify() == OpSum()
+            a = self.gen(d - 1, r.choice(["U", "O"]))
+            return ({"t": "simplify", "a": {"t": "bin", "op": "-", "a": a[0], "b": json.loads(json.dumps(a[0])), "aug": False}, "atol": None},
+                    "U", 0, a[3])
         if p in ("add", "sub"):
             ta, tb = r.choice([("O", "O"), ("O", "U"), ("U", "O"), ("U", "U")] +
                               ([("U", "L"), ("O", "L")] if p == "add" else []))
@@ -636,6 +640,7 @@ def run(ctx):
     n_ora = 3000 if thorough else 360
     n_ct = 1200 if thorough else 160          # Model.check_operator_terms cases (global / mixed scales)
     n_scl = 500 if thorough else 70           # dense oracle: Model(c * H) = c * Model(H)
+    n_hist = 600 if thorough else 90          # the same Op objects in models that group the dofs differently
     ctx.trusted += [
         "correspondence harness/c15.py + harness/impl/c15_lib.py: rendering of a JSON expression program as python operators on renormalizer Op/OpSum and as a Coq term over Model/OpAlg.v (DG instance), field-by-field export, decoding of the vm_compute output",
         "CPython/NumPy: operator dispatch (reflected operands, subclass priority), numeric ==/hash invariant across int/float/complex/NumPy scalars, exactness of binary64 arithmetic on the small dyadic factors used (a 1e-12 relative fallback is counted separately)",
@@ -748,7 +753,7 @@ def run(ctx):
     for k in range(0, len(cts), 80):
         blk = cts[k:k + 80]
         body = ";\n".join("(pk (enc_val (obind (oseq [%s]) (fun l => option_map (@VL DG) (check_operator_terms DG (fun d => existsb (Z.eqb d) [%s]) l)))))"
-                          % ("; ".join(coq_prog(it) for it in c_["items"]), "; ".join(zc(x) for x in c_["known"])) for c_ in blk)
+                          % ("; ".join(coq_prog(c_["items"][i]) for i in (c_.get("repeat") or range(len(c_["items"])))), "; ".join(zc(x) for x in c_["known"])) for c_ in blk)
         files.append(("ct%03d" % (k // 80), PREAMBLE + "From RV Require Import Gen.CheckTerms.\nEval vm_compute in (concat [\n%s]).\n" % body, ("ct", k, len(blk), None)))
     model_ct = [None] * len(cts)
     model_prog = [None] * len(programs)
@@ -832,6 +837,11 @@ def run(ctx):
             repro = REPRO_ORA % (IMPL_DIR, json.dumps(case))
             if im.get("mutated_operand"):
                 add_fail("program:mutated-operand", len(json.dumps(p)), {"program": p, "impl": im},
+                         REPRO_TIE % (IMPL_DIR, json.dumps({"syms": SYMS, "dofs": DOFS_TIE, "prog": p, "expected": mo})))
+            if im.get("audit"):
+                a0 = im["audit"][0]
+                add_fail("aliasing:%s@%s" % (a0["what"][:60].replace(" ", "-"), a0["node"]), len(json.dumps(p)),
+                         {"audit": im["audit"], "program": p, "impl": {k: v for k, v in im.items() if k != "audit"}},
                          REPRO_TIE % (IMPL_DIR, json.dumps({"syms": SYMS, "dofs": DOFS_TIE, "prog": p, "expected": mo})))
             if rnd["status"] == "bad":
                 first = rnd["bad"][0]
@@ -971,11 +981,13 @@ def run(ctx):
         g.env = []
         body = g.gen(rng.choice([1, 2, 2, 3]), "U")[0]
         scl_cases.append({"prog": {"lets": [], "body": body}, "ks": rng.sample(KS, 3), "mixed": [rng.choice(KS + [0]) for _ in range(5)]})
+    hist_cases = gen_history(rng, n_hist)
     ochunks = 12
-    ora_out = ctx.impl_par("c15_oracle.py", [{"syms": SYMS, "dofs": DOFS_ORA, "programs": ora_progs[c::ochunks], "scaled": scl_cases[c::ochunks]} for c in range(ochunks)])
+    ora_out = ctx.impl_par("c15_oracle.py", [{"syms": SYMS, "dofs": DOFS_ORA, "programs": ora_progs[c::ochunks], "scaled": scl_cases[c::ochunks],
+                                              "history": hist_cases[c::ochunks]} for c in range(ochunks)])
     ora_stats = {"programs": len(ora_progs), "ok": 0, "rejected": 0, "nodes": 0, "mpo_compared": 0,
                  "scaled_model_cases": len(scl_cases), "scaled_model_ok": 0, "scaled_model_constructions": 0,
-                 "bad": 0, "scaled_model_bad": 0}
+                 "bad": 0, "scaled_model_bad": 0, "history_cases": len(hist_cases), "history_ok": 0, "history_bad": 0, "history_mpo_compared": 0}
     ora_fail = None
     for c, (rc, res, out) in enumerate(ora_out):
         if res is None:
@@ -1006,9 +1018,21 @@ def run(ctx):
                          {"bad": r_["bad"][:3], "case": c_, "value": r_.get("value")},
                          REPRO_ORA % (IMPL_DIR, json.dumps({"syms": SYMS, "dofs": DOFS_ORA, "scaled": c_})))
 
+        for c_, r_ in zip(hist_cases[c::ochunks], res.get("history", [])):
+            if r_["status"] == "ok":
+                ora_stats["history_ok"] += 1
+                ora_stats["history_mpo_compared"] += r_.get("compared", 0)
+            elif r_["status"] == "bad":
+                ora_stats["history_bad"] += 1
+                first = r_["bad"][0]
+                add_fail("history:%s" % first["what"][:64].replace(" ", "-"), len(json.dumps(c_)),
+                         {"bad": r_["bad"][:3], "case": c_, "terms": r_.get("terms")},
+                         REPRO_ORA % (IMPL_DIR, json.dumps({"syms": SYMS, "dofs": DOFS_ORA, "history": c_})))
+
     # a dense oracle that accepts (almost) nothing is a machinery fault, not a pass
     if ora_fail is None and ((ora_stats["ok"] + ora_stats["bad"]) * 2 < ora_stats["programs"]
-                             or (ora_stats["scaled_model_ok"] + ora_stats["scaled_model_bad"]) * 2 < ora_stats["scaled_model_cases"]):
+                             or (ora_stats["scaled_model_ok"] + ora_stats["scaled_model_bad"]) * 2 < ora_stats["scaled_model_cases"]
+                             or (ora_stats["history_ok"] + ora_stats["history_bad"]) * 2 < ora_stats["history_cases"]):
         ctx.violation("harness:oracle-degenerate", "dense oracle accepted fewer than half of its cases (machinery fault, not evidence about the code)",
                       {"oracle": ora_stats}, found=False)
     n_rnd_ok = sum(1 for r_ in rnd_prog if r_ and r_["status"] in ("ok", "bad"))
@@ -1041,6 +1065,10 @@ def run(ctx):
             broken = "correspondence ==/hash (C15_eq_hash, C15_eq_iff_fields)"
         elif key.startswith("split:"):
             broken = "correspondence split_elementary (C15_split_elementary_normal_form)"
+        elif key.startswith("aliasing:"):
+            broken = "object-identity discipline of the algebra (values of the model are immutable: C15_add_empty, C15_iadd_is_add): " + key
+        elif key.startswith("history:"):
+            broken = "the same Op objects evaluated in several models (C15_split_elementary_ext: the split is a function of (op, dof_to_siteidx)): " + key
         elif key.startswith("model:"):
             broken = "model self-consistency (eval vs dispatch functions)"
         elif key.startswith("checkterms:") or key.startswith("oracle-scaled:"):
@@ -1053,8 +1081,8 @@ def run(ctx):
     ctx.notes.append("excluded-class probe (informational, never an alarm): %s" % (json.dumps(probe) if probe else outp[-300:]))
     ctx.notes.append("tie: %s" % json.dumps(stats))
     ctx.notes.append("oracle: %s" % json.dumps(ora_stats))
-    return {"evaluations": len(programs) + len(pairs) + len(splits) + len(cts) + ora_stats["programs"] + ora_stats["scaled_model_cases"],
-            "distinct_nontrivial": len(nontrivial) + ora_stats["ok"] + ora_stats["scaled_model_ok"],
+    return {"evaluations": len(programs) + len(pairs) + len(splits) + len(cts) + ora_stats["programs"] + ora_stats["scaled_model_cases"] + ora_stats["history_cases"],
+            "distinct_nontrivial": len(nontrivial) + ora_stats["ok"] + ora_stats["scaled_model_ok"] + ora_stats["history_ok"],
             "rule": "tie: distinct accepted expression programs with >= 2 operator nodes and >= 1 result term whose implementation result equals the model's field by field (exact factors), plus distinct ==/hash pairs and split_elementary cases that agree; check-terms: Model(basis, terms).ham_terms equal to the translated filter's result at global and mixed scales 2^-100..2^100; oracle: programs accepted by the implementation whose dense matrix equals the matrix expression at every node (1e-9 relative to the magnitude of the terms), and Model(c*H) = c*Model(H) cases",
             "samples": samples[:3], "exhaustive": False,
             "input_distribution": {"tie": stats, "oracle": ora_stats, "root_node": root_hist, "depth": depth_hist,
@@ -1083,6 +1111,39 @@ def root_scale(rng, body, typ):
     return {"t": "bin", "op": "/", "a": body, "b": scale_sc(rng, k, div=True), "aug": False}
 
 
+def gen_history(rng, n):
+    """terms of a two-level-system + vibration + spin Hamiltonian, to be built once and evaluated in two or three
+    models that group the electronic dofs into sites differently (and order the sites differently), in every order"""
+    out = []
+    for _ in range(n):
+        conserving = rng.random() < 0.4
+        terms = []
+        for _t in range(rng.choice([2, 3, 3, 4, 5])):
+            i, j = rng.randrange(2), rng.randrange(2)
+            if conserving:
+                el = rng.choice([None, ["ca", i, j], ["ca", i, j]])
+            else:
+                el = rng.choice([None, ["c", i], ["a", j], ["ca", i, j], ["ca", i, j], ["ca", i, i]])
+            sho = rng.choice([[], [], ["x"], ["b"], [r"b^\dagger"], [r"b^\dagger + b"], ["n"], [r"b^\dagger", "b"]])
+            spin = rng.choice([[], [], ["X"], ["Z"], ["sigma_+"], ["sigma_-", "X"], ["Z", "X"]])
+            if not el and not sho and not spin:
+                spin = ["Z"]
+            cplx = rng.random() < 0.25
+            f = {"k": rng.choice(["complex", "c128"] if cplx else ["float", "f64", "int", "i64"]),
+                 "re": rng.choice([1, -1, 2, 3, -3, 5, 0]), "im": rng.choice([1, -1, 2]) if cplx else 0, "ex": rng.choice([-2, -1, 0, 0, 1])}
+            if f["k"] in INT_KINDS:
+                f["ex"] = max(0, f["ex"])
+            terms.append({"elec": el, "sho": sho, "spin": spin, "f": f, "perm": rng.randrange(10 ** 9)})
+        split_sites, joint_sites = ["A", "C"], ["B", "D"] + (["E"] if conserving else [])
+        models = [rng.choice(split_sites), rng.choice(joint_sites)]
+        if rng.random() < 0.4:
+            models.append(rng.choice(split_sites + joint_sites))
+        rng.shuffle(models)
+        repeat = [rng.randrange(len(terms)) for _r in range(rng.choice([0, 0, 1, 2, 3]))]
+        out.append({"terms": terms, "repeat": repeat, "models": models})
+    return out
+
+
 def gen_cts(rng, n):
     """Model.check_operator_terms cases: lists of Op / OpSum items (sometimes a plain list or an unknown dof) whose
     factors span 2^-100 .. 2^100 within one list, with exact zeros, complex factors and a global scale"""
@@ -1107,7 +1168,17 @@ def gen_cts(rng, n):
             for it in items:
                 it["body"] = {"t": "bin", "op": "*", "a": it["body"], "b": scale_sc(rng, k), "aug": False} if rng.random() < 0.5 \
                     else {"t": "bin", "op": "*", "a": scale_sc(rng, k), "b": it["body"], "aug": False}
-        out.append({"items": items, "known": known})
+        case = {"items": items, "known": known}
+        if rng.random() < 0.35:                # same-object repetition: [op] * 3, part + extra + part
+            case["repeat"] = [rng.randrange(len(items)) for _ in range(rng.choice([2, 3, 4]))]
+        elif rng.random() < 0.25:
+            it = rng.choice(items)
+            if it["body"]["t"] != "list":
+                it["lets"] = [it["body"]]
+                extra = g.gen(0, "U")[0]
+                it["body"] = {"t": "bin", "op": "+", "a": {"t": "bin", "op": "+", "a": {"t": "var", "i": 0}, "b": extra, "aug": False},
+                              "b": {"t": "var", "i": 0}, "aug": False}
+        out.append(case)
     return out
 
 
